@@ -45,7 +45,8 @@ fn vf_index_edges_and_closure() {
     let work = td.path();
     let paths = ["app", "app2", "app-web", "app/sub", "app/sub/deep", "lib", "lib2", "libs/", "libs/core"];
     for p in paths.iter() { std::fs::create_dir_all(work.join(p)).unwrap(); std::fs::write(work.join(p).join("f.txt"), b"x").unwrap(); }
-    let uses_pool = ["lib", "lib2/src", "app/sub/file.txt", "app2", "app", "outside/x", "app-web/a", "libs/util.rs", "libs"];
+    // (entries that name a nested target by its exact path included: such an entry reaches the nested target AND every target enclosing it)
+    let uses_pool = ["lib", "lib2/src", "app/sub/file.txt", "app2", "app", "outside/x", "app-web/a", "libs/util.rs", "libs", "app/sub", "libs/core", "app/sub/deep"];
     let (mut checked, mut bad, mut nontrivial) = (0u64, 0u64, 0u64);
     // ordered selections of 2..=3 target paths; each target gets 0..=2 uses entries chosen by a small counter
     let np = paths.len();
